@@ -44,8 +44,22 @@ def seed():
         return 1
 
 
+RUN_TAG = ""          # "<property>.<tier>" (set by bin/check): scratch of concurrent runs never overlaps
+_run_lock = None
+
+
+def begin_run(tag):
+    """Scratch space of this run is .work/<tag>/...; a second concurrent run with the same tag waits."""
+    global RUN_TAG, _run_lock
+    import fcntl
+    RUN_TAG = tag
+    os.makedirs(WORK, exist_ok=True)
+    _run_lock = open(os.path.join(WORK, tag + ".lock"), "w")
+    fcntl.flock(_run_lock, fcntl.LOCK_EX)
+
+
 def workdir(name):
-    d = os.path.join(WORK, name)
+    d = os.path.join(WORK, RUN_TAG, name) if RUN_TAG else os.path.join(WORK, name)
     shutil.rmtree(d, ignore_errors=True)
     os.makedirs(d, exist_ok=True)
     return d
@@ -93,19 +107,25 @@ def build(name, sources, flags=(), opt="-O1", libs=(), timeout=900):
     out = os.path.join(d, "%s-%s" % (name, key))
     if os.path.exists(out):
         return out
-    # drop stale binaries of the same name
+    # drop stale binaries of the same name (never another run's temporary output)
     for f in os.listdir(d):
-        if f.startswith(name + "-"):
+        # (never another run's temporary output, nor a binary a concurrent run may be about to start)
+        if f.startswith(name + "-") and ".tmp." not in f and time.time() - os.path.getmtime(os.path.join(d, f)) > 7200:
             try:
                 os.remove(os.path.join(d, f))
             except OSError:
                 pass
-    cmd = [CXX] + BASE_FLAGS + [opt] + list(flags) + sources + ["-o", out + ".tmp"] + list(libs)
+    import threading
+    tmp = "%s.tmp.%d.%d" % (out, os.getpid(), threading.get_ident())
+    cmd = [CXX] + BASE_FLAGS + [opt] + list(flags) + sources + ["-o", tmp] + list(libs)
     t0 = time.time()
-    p = subprocess.run(cmd, capture_output=True, text=True, timeout=timeout)
+    try:
+        p = subprocess.run(cmd, capture_output=True, text=True, timeout=timeout)
+    except subprocess.TimeoutExpired:
+        raise Broken("harness build timed out for %s" % name)
     if p.returncode != 0:
         raise Broken("harness build failed for %s:\n%s" % (name, p.stderr[-4000:]))
-    os.replace(out + ".tmp", out)
+    os.replace(tmp, out)      # atomic: concurrent runs building the same key replace it with identical content
     log("[build] %s %.1fs" % (name, time.time() - t0))
     return out
 
